@@ -350,7 +350,8 @@ func (u *Uint) OtherOp(other *Uint) *Uint {
 
 // IsNegative checks the Uint would have been wrapped around if interpreted as an element of in [-n/2, n/2).
 func (u *Uint) IsNegative() bool {
-	return !u.Lift().IsLessThanOrEqual(u.Modulus().Increment().Rsh(1).Lift())
+	// v represents v - n exactly when v >= n/2, i.e. when 2v >= n (this is what FromUintSymmetric returns).
+	return !u.Lift().Double().Compare(u.Modulus().Lift()).IsLessThan()
 }
 
 // TryOpInv returns the additive inverse of the Uint element.
